@@ -1,6 +1,7 @@
 /-
 C09 — dataset level operations on top of `Model/Dataset.lean`: adding and deleting fields,
-`merge_with` (stable sort), `filter`, `unique`, `difference`, and the step function over a world
+`merge_with` (stable sort), `filter`, `unique`, `difference` (pairing by index fields, `intersect1d`),
+and the step function over a world
 of several datasets sharing one heap.
 -/
 import Midgard.Model.Dataset
@@ -156,10 +157,35 @@ def dsSort (h : Heap) (d : DS) (sortBy : Path) : M (Heap × DS) :=
 
 /-! ### `filter` and `unique` -/
 
+/-- the `except AttributeError` branch of `Dataset.filter`: the field does not exist, so the fields of the same
+container whose names start with `<name>_` are used instead (`station_1`, `station_2`, …; also the `<name>_self` /
+`<name>_other` fields `difference` leaves behind): a row passes when any of them equals the value -/
+def orFieldsMask (h : Heap) (n : Nat) (v : Scalar) : List Field → M (List Bool)
+  | [] => .ok (List.replicate n false)
+  | f :: fs =>
+    match orFieldsMask h n v fs, keyColumn h f with
+    | .ok m, .ok col =>
+      if m.length = col.length then .ok (List.zipWith (· || ·) (col.map (fun x => x == v && x != .nan)) m) else .error .value
+    | .error e, _ => .error e
+    | _, .error e => .error e
+
 /-- `np.asarray(self[field]) == value` for a 1-D field -/
 def filterMask (h : Heap) (d : DS) (path : Path) (v : Scalar) : M (List Bool) :=
   match findField d.fields path with
-  | none => .error .attribute
+  | none =>
+    match path.reverse with
+    | [] => .error .attribute
+    | last :: revInit =>
+      let container : Option (List Field) :=
+        if revInit.isEmpty then some d.fields
+        else match findField d.fields revInit.reverse with
+          | some (.coll _ _ _ sub) => some sub
+          | _ => none
+      match container with
+      | none => .error .attribute
+      | some fs =>
+        let orFields := fs.filter (fun f => (last ++ "_").isPrefixOf f.name)
+        if orFields.isEmpty then .error .attribute else orFieldsMask h d.numObs v orFields
   | some f =>
     match keyColumn h f with
     | .error e => .error e
@@ -187,6 +213,208 @@ def dsUnique (h : Heap) (d : DS) (path : Path) : M (List Scalar) :=
     | .error e => .error e
     | .ok col => .ok (dedupSorted ((argsortStable col).map (fun i => col.getD i .nan)))
 
+/-! ### `difference` (`Dataset.difference`, `Collection._difference`) -/
+
+/-- `array[idx]` without a memo (`PositionArray.__getitem__`, `PositionDeltaArray.__getitem__`,
+`TimeBase.__getitem__`, `SigmaArray.__getitem__`, NumPy fancy indexing): a new array with the selected
+rows; the registered attributes (`other`) and `ref_pos` "follow the same index" — each is indexed
+again, so an object reachable twice is copied twice. -/
+def getItemOpt (rec : Nat → Heap → M (Nat × Heap)) (r : Option Nat) (h : Heap) : M (Option Nat × Heap) :=
+  match r with
+  | none => .ok (none, h)
+  | some a =>
+    match rec a h with
+    | .error e => .error e
+    | .ok (a', h') => .ok (some a', h')
+
+def getItemObj (idx : Index) : Nat → Nat → Heap → M (Nat × Heap)
+  | 0, _, _ => .error .fuel
+  | fuel + 1, o, h =>
+    match h[o]? with
+    | none => .error .dangling
+    | some obj =>
+      match pick idx obj.rows with
+      | .error e => .error e
+      | .ok rows =>
+        match (if obj.kind.hasOther then getItemOpt (getItemObj idx fuel) obj.other h else .ok (none, h)) with
+        | .error e => .error e
+        | .ok (oth, h1) =>
+          match (if obj.kind.isDelta then getItemOpt (getItemObj idx fuel) obj.refPos h1 else .ok (none, h1)) with
+          | .error e => .error e
+          | .ok (rp, h2) => .ok (h2.length, h2 ++ [{ obj with rows := rows, other := oth, refPos := rp }])
+
+/-- one record of the index fields: the tuple of their values in one row -/
+abbrev Key := List Scalar
+
+/-- order of the records of an object-dtype structured array: field by field -/
+def keyLe : Key → Key → Bool
+  | [], _ => true
+  | _ :: _, [] => false
+  | a :: as, b :: bs => if a == b then keyLe as bs else a.le b
+
+/-- insertion into an ascending list of distinct keys -/
+def insertKey (k : Key) : List Key → List Key
+  | [] => [k]
+  | x :: xs => if k == x then x :: xs else if keyLe k x then k :: x :: xs else x :: insertKey k xs
+
+/-- `np.unique`: the distinct keys in ascending order -/
+def sortDedup (ks : List Key) : List Key := ks.foldr insertKey []
+
+/-- `np.intersect1d(A, B, return_indices=True)`: the common keys in ascending order, each with the
+first row of `A` and the first row of `B` that carries it -/
+def intersectKeys (A B : List Key) : List (Nat × Nat) :=
+  ((sortDedup A).filter (fun k => B.contains k)).map (fun k => (A.idxOf k, B.idxOf k))
+
+/-- `np.rec.fromarrays(index_data)`: the key columns turned into one key tuple per row -/
+def keyRows : List (List Scalar) → M (List Key)
+  | [] => .ok []
+  | c :: cs =>
+    if (c :: cs).all (fun x => x.length == c.length) then
+      .ok ((List.range c.length).map (fun i => (c :: cs).map (fun col => col.getD i .nan)))
+    else .error .value
+
+/-- `self[name]` of an index field as a key column (top-level 1-D fields; a NaN key has no equal in
+NumPy and is outside the modelled fragment) -/
+def indexColumn (h : Heap) (d : DS) (name : String) : M (List Scalar) :=
+  if name.toList.contains '.' then .error .unsupported else
+  match getField d.fields name with
+  | none => .error .attribute
+  | some f =>
+    match keyColumn h f with
+    | .error e => .error e
+    | .ok col => if col.contains .nan then .error .unsupported else .ok col
+
+/-- the two row indices of `Dataset.difference` and the number of paired rows: without `index_by`
+all-true masks (the lengths must agree), with it the `intersect1d` indices -/
+def diffIndex (h : Heap) (d e : DS) : Option (List String) → M (Index × Index × Nat)
+  | none =>
+    if d.numObs != e.numObs then .error .value
+    else .ok (.mask (List.replicate d.numObs true), .mask (List.replicate e.numObs true), d.numObs)
+  | some names =>
+    match names.mapM (indexColumn h d) with
+    | .error err => .error err
+    | .ok ca =>
+      match names.mapM (indexColumn h e) with
+      | .error err => .error err
+      | .ok cb =>
+        match keyRows ca, keyRows cb with
+        | .ok A, .ok B =>
+          let pairs := intersectKeys A B
+          .ok (.ints (pairs.map (fun p => Int.ofNat p.1)), .ints (pairs.map (fun p => Int.ofNat p.2)), pairs.length)
+        | .error err, _ => .error err
+        | _, .error err => .error err
+
+/-- `x - y` on floats (NaN propagates) -/
+def subScalar : Scalar → Scalar → Scalar
+  | .num a, .num b => .num (a - b)
+  | _, _ => .nan
+
+def subRow (a b : Row) : Row := List.zipWith subScalar a b
+
+/-- the type of `a - b` for two arrays of one kind (`Time - Time = TimeDelta`, `Position - Position =
+PositionDelta`, …); `none`: the operator raises `TypeError` (bool, text, `SigmaArray.__sub__`) -/
+def Kind.diffKind : Kind → Option Kind
+  | .float => some .float
+  | .time | .timeDelta => some .timeDelta
+  | .position | .positionDelta => some .positionDelta
+  | .posvel | .posvelDelta => some .posvelDelta
+  | .bool | .text | .sigma => none
+
+/-- `[Unit(_from, _to) for _to, _from in zip(field._unit, other._unit)]`: a missing unit on either
+side is the `TypeError` branch (no factors), an impossible conversion is re-raised as `ValueError` -/
+def diffFactors (us : Units) (selfU otherU : Option (List String)) : M (List Rat) :=
+  match selfU, otherU with
+  | some su, some ou =>
+    match (ou.zip su).mapM (fun (fr, to) => us.factor fr to) with
+    | some fs => .ok fs
+    | none => .error .value
+  | _, _ => .ok []
+
+/-- one common leaf field of `Collection._difference`: the fields to `add_field`, in order.
+`si`/`oi` are the row indices of self / other, `cnt` the number of paired rows. -/
+def diffLeaf (us : Units) (si oi : Index) (cnt : Nat) (cs co : Bool) (nm : String) (k : Kind) (o : Nat)
+    (u : Option (List String)) (l : Nat) (k2 : Kind) (o2 : Nat) (u2 : Option (List String)) (l2 : Nat) (h : Heap) :
+    M (List Field × Heap) :=
+  match diffFactors us u u2 with
+  | .error e => .error e
+  | .ok fs =>
+    if k != k2 then .error .unsupported else   -- (outside the modelled fragment: fields of different types)
+    match getItemObj si (h.length + 1) o h with
+    | .error e => .error e
+    | .ok (a, h1) =>
+      match getItemObj oi (h1.length + 1) o2 h1 with
+      | .error e => .error e
+      | .ok (b, h2) =>
+        match h2[a]?, h2[b]? with
+        | some oa, some ob =>
+          if oa.kind != k || ob.kind != k then .error .unsupported else   -- (model guard, as in `extendLeaf`)
+          match k.diffKind with
+          | none =>
+            -- `TypeError`: `copy_self_on_error` / `copy_other_on_error`
+            .ok ((if cs then [Field.leaf (nm ++ "_self") k a cnt u l] else []) ++
+                 (if co then [Field.leaf (nm ++ "_other") k b cnt u2 l2] else []), h2)
+          | some k' =>
+            -- (outside the modelled fragment: NumPy broadcasting of unequal shapes; the empty epoch)
+            if oa.ndim != ob.ndim || oa.cols != ob.cols || (fs.length != 0 && fs.length != ob.cols) then .error .unsupported
+            else if k == .time && (oa.rows.any (fun r => r.contains .nan) || ob.rows.any (fun r => r.contains .nan)) then
+              .error .unsupported
+            else
+              -- `self[f][self_idx] - other[f][other_idx] * factors`; a position difference refers to the
+              -- position of self, a difference of deltas keeps the `ref_pos` of self
+              let rp := if k.hasOther then some a else if k.isDelta then oa.refPos else none
+              .ok ([Field.leaf nm k' h2.length cnt u l],
+                   h2 ++ [{ kind := k', ndim := oa.ndim, cols := oa.cols,
+                            rows := List.zipWith subRow oa.rows (ob.rows.map (scaleRow fs)), other := none, refPos := rp }])
+        | _, _ => .error .dangling
+
+/-- `Collection._difference`: the loop over `self._fields`; fields missing in `other` are skipped,
+collections recurse **with the same two row indices**, every new field goes through `add_field`
+(`dict[name] = field`). -/
+def diffField (us : Units) (si oi : Index) (cnt : Nat) (cs co : Bool) : Field → Field → Heap → M (List Field × Heap)
+  | .leaf nm k o _ u l, .leaf _ k2 o2 _ u2 l2, h => diffLeaf us si oi cnt cs co nm k o u l k2 o2 u2 l2 h
+  | .coll nm _ l fs, .coll _ _ _ gs, h =>
+    match diffLoop fs gs [] h with
+    | .error e => .error e
+    | .ok (rs, h') => .ok ([.coll nm cnt l rs], h')
+  | .leaf .., .coll .., _ => .error .attribute
+  | .coll .., .leaf .., _ => .error .attribute
+where
+  diffLoop : List Field → List Field → List Field → Heap → M (List Field × Heap)
+    | [], _, acc, h => .ok (acc, h)
+    | f :: fs, gs, acc, h =>
+      match getField gs f.name with
+      | none => diffLoop fs gs acc h
+      | some g =>
+        match diffField us si oi cnt cs co f g h with
+        | .error e => .error e
+        | .ok (new, h') => diffLoop fs gs (new.foldl setField acc) h'
+
+/-- the tail of `Dataset.difference`: every index field is deleted from the result and put back, at
+the end, with the rows of self -/
+def indexFields (si : Index) (cnt : Nat) (selfFields : List Field) : List String → List Field → Heap → M (List Field × Heap)
+  | [], acc, h => .ok (acc, h)
+  | nm :: rest, acc, h =>
+    match getField selfFields nm with
+    | some (.leaf _ k o _ u l) =>
+      match getItemObj si (h.length + 1) o h with
+      | .error e => .error e
+      | .ok (a, h') => indexFields si cnt selfFields rest (delField acc nm ++ [.leaf nm k a cnt u l]) h'
+    | _ => .error .unsupported
+
+/-- `Dataset.difference(other, index_by, copy_self_on_error, copy_other_on_error)` (after the `fix:`:
+the result declares the number of paired rows also when no field was subtracted) -/
+def dsDifference (us : Units) (h : Heap) (d e : DS) (indexBy : Option (List String)) (cs co : Bool) : M (Heap × DS) :=
+  match diffIndex h d e indexBy with
+  | .error err => .error err
+  | .ok (si, oi, cnt) =>
+    if cnt == 0 then .error .value else
+    match diffField.diffLoop us si oi cnt cs co d.fields e.fields [] h with
+    | .error err => .error err
+    | .ok (fs, h1) =>
+      match indexFields si cnt d.fields (indexBy.getD []) fs h1 with
+      | .error err => .error err
+      | .ok (fs', h2) => .ok (h2, { numObs := cnt, fields := fs' })
+
 /-! ### The world and its step function -/
 
 inductive Ref
@@ -205,6 +433,7 @@ inductive Op
   | merge (d : Nat) (es : List Nat) (sortBy : Option Path)
   | filterSubset (d : Nat) (filters : List (Path × Scalar))
   | unique (d : Nat) (path : Path)
+  | difference (d e r : Nat) (indexBy : Option (List String)) (copySelf copyOther : Bool)
   deriving Repr, Inhabited
 
 structure W where
@@ -327,5 +556,13 @@ def step (w : W) (op : Op) : M (W × Out) :=
     | .ok x => match dsUnique w.heap x path with
       | .error e => .error e
       | .ok v => .ok (w, .vals v)
+  | .difference d e r ib cs co =>
+    -- `w.ds[r] = w.ds[d].difference(w.ds[e], …)`: the result is a new dataset (slot `r` may be an operand's)
+    match w.getDs d, w.getDs e with
+    | .ok x, .ok y => match dsDifference w.units w.heap x y ib cs co with
+      | .error err => .error err
+      | .ok (h, z) => .ok ({ w.setDs r z with heap := h }, .none)
+    | .error err, _ => .error err
+    | _, .error err => .error err
 
 end Midgard.Dataset
